@@ -356,6 +356,9 @@ func (f *frame) applyContract(sp *FuncSpec, callee *ssa.Function, args []Val, pc
 			}
 			mods = append(mods, c.resolveHeapNames(m, callee)...)
 		}
+		for _, g := range specGhostWrites(sp) {
+			mods = append(mods, "ghost$"+g)
+		}
 	} else {
 		ms := c.modsOf(callee)
 		if ms.all {
@@ -463,6 +466,17 @@ func bindParams(env *specEnv, sp *FuncSpec, callee *ssa.Function, args []Val) {
 
 func (c *Ctx) havocHeap(st State, name string) {
 	srt, ok := c.heapSort[name]
+	if !ok && strings.HasPrefix(name, "ghost$") {
+		// a ghost variable not referenced so far: its sort comes from its declaration
+		if g := c.specs.Ghosts[name[6:]]; g != nil {
+			if sp := c.prog.ByPkg[g.PkgPath]; sp != nil {
+				if t := c.evalType(g.Type, sp.Pkg); t != nil {
+					srt, ok = c.sortOf(t), true
+					c.heapSort[name] = srt
+				}
+			}
+		}
+	}
 	if !ok {
 		if cur, ok2 := st[name]; ok2 && !isMarker(cur) {
 			srt = cur.Sort
